@@ -3,7 +3,7 @@
 // before the change but is still waiting in the hand-over ring when it happens.
 use crate::effect::Effect;
 use crate::track::TrackBuilder;
-use crate::backend::renderer::RendererShared;
+use crate::backend::RendererShared;
 use std::sync::Arc;
 
 struct KvRateProbe;
